@@ -75,7 +75,9 @@ func (t *TypeAliasType) Accept(v px.Visitor, g px.Guard) {
 		return
 	}
 	v(t)
-	t.resolvedType.Accept(v, g)
+	if t.resolvedType != nil {
+		t.resolvedType.Accept(v, g)
+	}
 }
 
 func (t *TypeAliasType) Default() px.Type {
@@ -84,6 +86,10 @@ func (t *TypeAliasType) Default() px.Type {
 
 func (t *TypeAliasType) Equals(o interface{}, g px.Guard) bool {
 	if ot, ok := o.(*TypeAliasType); ok && t.name == ot.name {
+		if t.resolvedType == nil || ot.resolvedType == nil {
+			// an alias that is not resolved yet has no type to compare: it equals itself only
+			return t == ot
+		}
 		if g == nil {
 			g = make(px.Guard)
 		}
